@@ -20,13 +20,21 @@ use barter::{
     execution::AccountStreamEvent,
 };
 use barter_data::{
+    books::Level,
     event::{DataKind, MarketEvent},
     streams::consumer::MarketStreamEvent,
-    subscription::trade::PublicTrade,
+    subscription::{book::OrderBookL1, liquidation::Liquidation, trade::PublicTrade},
 };
 use barter_execution::{
-    AccountEvent, AccountEventKind,
+    AccountEvent, AccountEventKind, AccountSnapshot,
     balance::{AssetBalance, Balance},
+    order::{
+        Order, OrderKey, OrderKind, TimeInForce,
+        id::{ClientOrderId, OrderId},
+        request::OrderResponseCancel,
+        state::{Cancelled, OrderState},
+    },
+    trade::{AssetFees, Trade, TradeId},
 };
 use barter_instrument::{
     Side,
@@ -42,8 +50,10 @@ use serde_json::{Value, json};
 
 #[derive(Debug, Clone, Copy, PartialEq, Eq, Hash, Serialize, Deserialize)]
 pub enum Act {
-    MarketItem(usize),
-    AccountItem(usize),
+    /// (exchange, market event kind: 0 trade, 1 top of book, 2 liquidation)
+    MarketItem(usize, u8),
+    /// (exchange, account event kind: 0 balance, 1 order snapshot, 2 trade, 3 full snapshot, 4 cancel response)
+    AccountItem(usize, u8),
     MarketReconnecting(usize),
     AccountReconnecting(usize),
 }
@@ -100,26 +110,63 @@ impl M {
 
     fn event(&self, a: &Act) -> Event {
         match *a {
-            Act::MarketItem(x) => EngineEvent::Market(MarketStreamEvent::Item(MarketEvent {
+            Act::MarketItem(x, k) => EngineEvent::Market(MarketStreamEvent::Item(MarketEvent {
                 time_exchange: t_plus(1),
                 time_received: t_plus(1),
                 exchange: self.exchange_id(x),
                 instrument: self.instrument_on(x),
-                kind: DataKind::Trade(PublicTrade {
-                    id: "1".into(),
-                    price: 100.0,
-                    amount: 1.0,
-                    side: Side::Buy,
-                }),
+                kind: match k {
+                    0 => DataKind::Trade(PublicTrade { id: "1".into(), price: 100.0, amount: 1.0, side: Side::Buy }),
+                    1 => DataKind::OrderBookL1(OrderBookL1 {
+                        last_update_time: t_plus(1),
+                        best_bid: Some(Level::new(Decimal::from(99), Decimal::ONE)),
+                        best_ask: Some(Level::new(Decimal::from(101), Decimal::ONE)),
+                    }),
+                    _ => DataKind::Liquidation(Liquidation { side: Side::Sell, price: 100.0, quantity: 1.0, time: t_plus(1) }),
+                },
             })),
-            Act::AccountItem(x) => EngineEvent::Account(AccountStreamEvent::Item(AccountEvent {
-                exchange: ExchangeIndex(x),
-                kind: AccountEventKind::BalanceSnapshot(Snapshot(AssetBalance {
+            Act::AccountItem(x, k) => {
+                let key = OrderKey {
+                    exchange: ExchangeIndex(x),
+                    instrument: self.instrument_on(x),
+                    strategy: strategy_id(),
+                    cid: ClientOrderId::new("c"),
+                };
+                let balance = AssetBalance {
                     asset: self.asset_on(x),
                     balance: Balance::new(Decimal::ONE, Decimal::ONE),
                     time_exchange: t_plus(1),
-                })),
-            })),
+                };
+                let kind = match k {
+                    0 => AccountEventKind::BalanceSnapshot(Snapshot(balance)),
+                    1 => AccountEventKind::OrderSnapshot(Snapshot(Order {
+                        key,
+                        side: Side::Buy,
+                        price: Decimal::from(100),
+                        quantity: Decimal::ONE,
+                        kind: OrderKind::Limit,
+                        time_in_force: TimeInForce::GoodUntilCancelled { post_only: false },
+                        state: OrderState::fully_filled(),
+                    })),
+                    2 => AccountEventKind::Trade(Trade {
+                        id: TradeId::new("t"),
+                        order_id: OrderId::new("o"),
+                        instrument: self.instrument_on(x),
+                        strategy: strategy_id(),
+                        time_exchange: t_plus(1),
+                        side: Side::Buy,
+                        price: Decimal::from(100),
+                        quantity: Decimal::ONE,
+                        fees: AssetFees::quote_fees(Decimal::ZERO),
+                    }),
+                    3 => AccountEventKind::Snapshot(AccountSnapshot { exchange: ExchangeIndex(x), balances: vec![balance], instruments: vec![] }),
+                    _ => AccountEventKind::OrderCancelled(OrderResponseCancel {
+                        key,
+                        state: Ok(Cancelled { id: OrderId::new("o"), time_exchange: t_plus(1) }),
+                    }),
+                };
+                EngineEvent::Account(AccountStreamEvent::Item(AccountEvent { exchange: ExchangeIndex(x), kind }))
+            }
             Act::MarketReconnecting(x) => {
                 EngineEvent::Market(MarketStreamEvent::Reconnecting(self.exchange_id(x)))
             }
@@ -170,8 +217,12 @@ impl Model for M {
     fn actions(&self, _s: &St) -> Vec<Act> {
         let mut v = Vec::new();
         for x in 0..self.n {
-            v.push(Act::MarketItem(x));
-            v.push(Act::AccountItem(x));
+            for k in 0..3u8 {
+                v.push(Act::MarketItem(x, k));
+            }
+            for k in 0..5u8 {
+                v.push(Act::AccountItem(x, k));
+            }
             v.push(Act::MarketReconnecting(x));
             v.push(Act::AccountReconnecting(x));
         }
@@ -187,11 +238,11 @@ impl Model for M {
         // reference: the statement
         let mut want = s.links.clone();
         let (x, expect_disc): (usize, Option<ExchangeId>) = match *a {
-            Act::MarketItem(x) => {
+            Act::MarketItem(x, _) => {
                 want[x].0 = true;
                 (x, None)
             }
-            Act::AccountItem(x) => {
+            Act::AccountItem(x, _) => {
                 want[x].1 = true;
                 (x, None)
             }
@@ -205,8 +256,8 @@ impl Model for M {
             }
         };
         let kind = match a {
-            Act::MarketItem(_) => "market-item",
-            Act::AccountItem(_) => "account-item",
+            Act::MarketItem(..) => "market-item",
+            Act::AccountItem(..) => "account-item",
             Act::MarketReconnecting(_) => "market-reconnecting",
             Act::AccountReconnecting(_) => "account-reconnecting",
         };
@@ -307,7 +358,7 @@ pub fn run(ctx: &Ctx) -> Outcome {
             "exhaustive": true,
             "per_configuration": per_n,
             "samples": samples,
-            "rule": "BFS to fixpoint over {market item, account item, market reconnecting, account reconnecting} x exchange, for 1,2,3 exchanges, every transition executed by the real Engine::process; state = connectivity flags",
+            "rule": "BFS to fixpoint over {market item (trade / top of book / liquidation), account item (balance / order snapshot / trade / full snapshot / cancel response), market reconnecting, account reconnecting} x exchange, for 1,2,3 exchanges, every transition executed by the real Engine::process; state = connectivity flags",
         }),
         assumptions: vec![
             "connectivity only depends on the connectivity flags (state rebuilt from them for each transition)".into(),
